@@ -47,6 +47,11 @@ pub fn jump_target(rng: &mut Rng, f: Family) -> u64 {
             _ => rng.next_u64() & 0xffff_ffff,
         }
     } else {
+        // the last blocks of the stream: legal positions; the histories that follow are clamped so that they stop at
+        // the end of the stream (block 2^64 - 1, byte 63) and never wrap
+        if rng.chance(1, 12) {
+            return u64::MAX - rng.below(3);
+        }
         let lo: u64 = match rng.below(8) {
             0 => 0,
             1 | 2 => 0xffff_fffe,
@@ -149,6 +154,7 @@ impl Scenario for CtrJump {
         let mut real = guarded(|| make_stream(&sp.v, sp.rounds, &sp.key, &sp.nonce)).map_err(|m| Violation::new("unexpected-panic", 0, "context constructed", m, sp.v.name))?;
         let mut blk: u64 = 0;
         let mut off: usize = 0;
+        let mut exhausted = false; // 64-bit counters: all 2^64 blocks consumed; nothing further is specified until a jump
         let vi = STREAM_VARIANTS.iter().position(|x| x.name == sp.v.name).unwrap() as u32;
         for (i, op) in t.ops.iter().enumerate() {
             obs.begin_op(i);
@@ -163,9 +169,20 @@ impl Scenario for CtrJump {
                     r.map_err(|m| Violation::new("unexpected-panic", i, "jump accepted", m, sp.v.name))?;
                     blk = target;
                     off = 0;
+                    exhausted = false;
                 }
                 K_PROCESS | K_PROCESS_MUT => {
-                    let len = (op.len as usize).min(4096);
+                    if exhausted {
+                        continue;
+                    }
+                    let mut len = (op.len as usize).min(4096);
+                    if f.counter_bits() == 64 && blk >= u64::MAX - 128 {
+                        let remaining = (u64::MAX - blk) as usize * 64 + (64 - off);
+                        if len >= remaining {
+                            len = remaining;
+                            obs.hit("probe.last_block_of_the_stream_consumed");
+                        }
+                    }
                     let input = Aligned::new(op.seed, len, (op.off % 32) as usize);
                     let ks = keystream(f, &sp.key, &sp.nonce, blk, off, len, sp.rounds);
                     let want: Vec<u8> = input.get().iter().zip(ks.iter()).map(|(a, b)| a ^ b).collect();
@@ -192,6 +209,9 @@ impl Scenario for CtrJump {
                         let firstbad = got.iter().zip(want.iter()).position(|(a, b)| a != b).unwrap_or(0);
                         return Err(Violation::bytes("stream-mismatch", i, &want, &got, format!("{} R={} key{}: {} bytes at block {:#x}+{} differ from the specified keystream (first at byte {}, i.e. block {:#x})", sp.v.name, sp.rounds, sp.key.len() * 8, len, blk, off, firstbad, (blk.wrapping_add(((off + firstbad) / 64) as u64)) & mask)));
                     }
+                    if f.counter_bits() == 64 && crossed_blocks > 0 && before.checked_add(crossed_blocks).is_none() {
+                        exhausted = true;
+                    }
                     blk = blk.wrapping_add(crossed_blocks) & mask;
                     off = total % 64;
                     obs.pos(blk);
@@ -202,6 +222,9 @@ impl Scenario for CtrJump {
             // it. Which of the two depends on bookkeeping the property does not constrain (refill eagerly or lazily,
             // increment before or after generating a block), so both are accepted at every position; a counter
             // anywhere else is state corruption. The keystream comparison is what the property constrains.
+            if exhausted {
+                continue;
+            }
             let want_ctr = blk.wrapping_add(if off > 0 { 1 } else { 0 }) & mask;
             let got_ctr = real.counter();
             if got_ctr != (blk & mask) && got_ctr != (blk.wrapping_add(1) & mask) {
@@ -211,7 +234,7 @@ impl Scenario for CtrJump {
         // end of run: whatever state the history left must show in the keystream: continue for two more
         // block boundaries (never across 2^64 blocks)
         let n = t.ops.len();
-        if blk < u64::MAX - 4 || f.counter_bits() == 32 {
+        if !exhausted && (blk < u64::MAX - 4 || f.counter_bits() == 32) {
             let ks = keystream(f, &sp.key, &sp.nonce, blk, off, 130, sp.rounds);
             let mut buf = [0u8; 130];
             guarded(|| real.process_mut(&mut buf)).map_err(|m| Violation::new("unexpected-panic", n, "process_mut", m, sp.v.name))?;
